@@ -19,6 +19,7 @@
 //verif:replace (*net/http.Request).FormValue github.com/celestiaorg/celestia-node/api/rpc.verifFormValue
 //verif:replace (net/http.Header).Get github.com/celestiaorg/celestia-node/api/rpc.verifHeaderGet
 //verif:noop github.com/ipfs/go-log/v2 go.uber.org/zap
+//verif:bound two requests with one token on one server: first request to one method per permission level, second to EVERY method, at an arbitrary later instant (symbolic clock), token with arbitrary permissions / expiry / signature verdict
 //verif:bound RPC authorisation: EVERY method of every module registered in nodebuilder/rpc/constructors.go (the table of `perm` tags is regenerated from /repo's source on every run) x credential: no token, or a token whose signature check passes or fails, with an ARBITRARY subset of the four permissions and no expiry or an arbitrary 64-bit expiry instant against an arbitrary current instant x authentication enabled/disabled x CORS configuration on/off
 //verif:assume go-jsonrpc's reflective PermissionedProxy and method dispatch are a model: a method registered through the proxy is reached iff auth.HasPerm(ctx, defaultPerms, its perm tag) - with the REAL HasPerm/WithPerm/auth.Handler code and the valid/default permission lists the repository passes; a service registered directly is reached unconditionally. jwt.Parse is an ideal verdict (signature valid or not), JSON decoding of the payload is the identity. net/http request plumbing (Header.Get, Context, WithContext) and rs/cors are pass-through models
 //verif:outside HMAC/JWT library, JSON decoding, websocket transport, the client side; that a module implementation itself re-checks nothing
@@ -235,6 +236,14 @@ func verifServe(authDisabled, corsOn bool, e verifPermEntry, hasToken bool) (rea
 			s.RegisterService(x.Module, &verifAPI{"impl:" + x.Module}, &verifAPI{"api:" + x.Module})
 		}
 	}
+	verifSrv = s
+	return verifRequest(s, e, hasToken)
+}
+
+var verifSrv *Server
+
+// one more request against an already running server
+func verifRequest(s *Server, e verifPermEntry, hasToken bool) (reached, served bool, status int) {
 	core := &verifCore{module: e.Module, perm: auth.Permission(e.Perm)}
 	h := s.newHandlerStack(core)
 	r := &http.Request{Header: http.Header{}}
@@ -244,6 +253,64 @@ func verifServe(authDisabled, corsOn bool, e verifPermEntry, hasToken bool) (rea
 	w := &verifWriter{}
 	h.ServeHTTP(w, r)
 	return core.reached, core.served, w.status
+}
+
+// Every request is judged on its own: after a first request with a token was
+// served (or refused), a second request with the SAME token at a later instant,
+// for any method, is reachable exactly if the token - at that later instant -
+// grants the method's permission. In particular a token that expired between
+// the two requests grants nothing, whatever the server remembered.
+//
+//verif:opts nopanic nodeadlock noreplay cover=expired-in-between,still-valid,never-valid
+func VerifH_C19_EveryRequestIsJudgedAfresh() {
+	corsOn := nd.Bool("corsOn")
+	verifSigOK = nd.Bool("sigOK")
+	verifAllow = nil
+	for _, p := range []auth.Permission{"public", "read", "write", "admin"} {
+		if nd.Choice(2, "allow-"+string(p)) == 1 {
+			verifAllow = append(verifAllow, p)
+		}
+	}
+	verifExpiry = 0
+	if nd.Choice(2, "hasExpiry") == 1 {
+		verifExpiry = nd.I64("expiry")
+		nd.Assume(verifExpiry != 0)
+	}
+	verifNowNs = nd.I64("now1")
+	nd.Assume(verifNowNs > 0)
+	expired1 := verifExpiry != 0 && verifExpiry < verifNowNs
+	// first request: one method per permission level (the level is all the auth path looks at)
+	var reps []verifPermEntry
+	seen := map[string]bool{}
+	for _, x := range verifPermTable {
+		if !seen[x.Perm] {
+			seen[x.Perm] = true
+			reps = append(reps, x)
+		}
+	}
+	e1 := reps[nd.Choice(len(reps), "method1")]
+	reached1, _, _ := verifServe(false, corsOn, e1, true)
+	nd.Assert(reached1 == (verifSigOK && !expired1 && verifHas(verifAllow, auth.Permission(e1.Perm))), "token-reaches-exactly-the-methods-its-permissions-cover")
+
+	later := nd.I64("now2")
+	nd.Assume(later >= verifNowNs)
+	verifNowNs = later
+	expired2 := verifExpiry != 0 && verifExpiry < verifNowNs
+	e2 := verifPermTable[nd.Choice(len(verifPermTable), "method2")]
+	reached2, served2, status2 := verifRequest(verifSrv, e2, true)
+	switch {
+	case !verifSigOK:
+		nd.Cover("never-valid")
+		nd.Assert(!reached2 && !served2 && status2 == 401, "wrongly-signed-token-grants-nothing")
+	case expired2:
+		if !expired1 {
+			nd.Cover("expired-in-between")
+		}
+		nd.Assert(!reached2 && !served2 && status2 == 401, "expired-token-grants-nothing-even-after-an-earlier-accepted-request")
+	default:
+		nd.Cover("still-valid")
+		nd.Assert(reached2 == verifHas(verifAllow, auth.Permission(e2.Perm)), "token-reaches-exactly-the-methods-its-permissions-cover")
+	}
 }
 
 // Every method is reachable exactly by callers whose credential grants the
